@@ -33,6 +33,7 @@ def parseOp : List String → Option Op
   | ["df", t, f, k] => do pure (.dropFutureHolding (← t.toNat?) (fk (← f.toNat?)) (hk (← k.toNat?)))
   | ["po", t, f] => do pure (.poll (← t.toNat?) (fk (← f.toNat?)))
   | ["df", t, f] => do pure (.dropFuture (← t.toNat?) (fk (← f.toNat?)))
+  | ["ii", _t, f] => do pure (.intoInner (fk (← f.toNat?)))                               -- f.into_inner()
   | ["sd", t, c] => do pure (.setDefault (← t.toNat?) (if c == "-" then none else c.toNat?))
   | _ => none
 
